@@ -1,4 +1,5 @@
 import Bgpfu.Lemmas.Policy
+import Bgpfu.Lemmas.FetchInstalled
 /-!
 # C01 — an agent run converges the installed prefix filters to the evaluated target
 
@@ -368,5 +369,190 @@ theorem raw_names_cex :
              | .error e => e == .stmtNotFound)
         | .error _ => false)
      | .error _ => false) = true := by decide
+
+end Policy
+
+/-!
+# C01, read-back at event level — the real reader in place of the abstract one
+
+`readInstalled` above works on the reference configuration structure. The code is an event-level pull
+parser (`Maybe<Installed>::read_xml`, `Term`, `TermFrom`, `RouteFilter`, `try_into_ranges` under the
+generic `Policies<T>` loops); `Xml.readInstalledDoc` (`Model/FetchInstalled.lean`) models it loop by
+loop, arm by arm on the tokenizer's event list, and `Xml.renderGetConfig` (`Spec/InstalledGrammar.lean`,
+DESIGN.md Appendix B) is the `<get-config>` reply document for a configuration, as that event list.
+The theorems below say that on every such document the event-level reader *is* the abstract reader,
+so `readback_total` and `run_converges` hold with the event-level reader in their place.
+
+A configuration is given at text level (`Xml.TCfg`; names and families are `String`s) and denotes the
+reference configuration `c.toJ enc` under a text encoding `enc` (UTF-8). Hypotheses, both relative to
+the configuration and decidable for concrete oracles (see the examples):
+* `o.Consistent c` — the library oracles (`quick_xml::escape::unescape`, generic-ip
+  `Prefix<A>::from_str`, `PrefixLength<A>::from_str`) behave on the texts of `c` as the abstract model
+  assumes of them (`Policy.readRange`); `unescape_satisfiable` shows the one clause that quantifies
+  over all texts is satisfiable;
+* `EncOK enc c` — `enc` is injective on the strings the reader compares, maps the two family names to
+  `inet` / `inet6`, and commutes with trimming on the family values of `c`.
+-/
+namespace Policy
+open Xml (IOracle TCfg TTerm TPolicy EncOK renderGetConfig readInstalledDoc encNames)
+
+/-- **The event-level reader on the rendered reply is the abstract reader**, for every
+configuration: same policies in the same order with the same range sets, or both fail — including
+every error case of the abstract reader (term without accept, term without from/family, term name ≠
+family, unknown family, duplicate family term, malformed range, duplicate policy) and the skipping
+of a policy without default reject. (Results are compared as `Option`: the abstract reader's error
+*classes* are a modelling device; `readInstalledEv_refines` gives the real reader's classes.) -/
+theorem readInstalledEv_render (o : IOracle) (enc : String → Str) (c : TCfg) (hC : o.Consistent c) (hE : EncOK enc c) :
+    (readInstalledDoc o (renderGetConfig c)).toOption.map (encNames enc)
+      = (readInstalled .fixed (c.toJ enc)).toOption :=
+  Xml.readInstalledDoc_abs o enc c hC hE
+
+/-- **Refinement with the real reader's error classes**: on every rendered reply the event-level
+loops compute the child-level semantics `posAbs` (`Lemmas/FetchInstalled.lean`: `termAbs`,
+`termsAbs`, `policyAbs`), which names the `ReadError` variant of each failure. -/
+theorem readInstalledEv_refines (o : IOracle) (c : TCfg) (hU : ∀ s, o.unescape (Xml.escS s) = some s) :
+    readInstalledDoc o (renderGetConfig c) = Xml.posAbs o [] c :=
+  Xml.readInstalledDoc_refines o hU c
+
+/-- **Totality** (every event list, reply document or not, every oracle): the reader model never
+runs out of fuel — `evs.length + 1` loop iterations always suffice. -/
+theorem readInstalledEv_total (o : IOracle) (evs : List Xml.Ev) : readInstalledDoc o evs ≠ .error .fuel := by
+  unfold readInstalledDoc
+  apply Xml.readData_total
+  intro t rest
+  exact Xml.policiesLoop_total _ (Xml.readInstalledStmt_good o) _ _ _ _ (Nat.lt_succ_self _)
+
+/-- the hypothesis on `unescape` (the only one that quantifies over all texts) is satisfiable -/
+theorem unescape_satisfiable : ∃ u : String → Option String, ∀ s, u (Xml.escS s) = some s :=
+  ⟨fun s => some (Xml.unescS s), fun s => congrArg some (Xml.unescS_escS s)⟩
+
+/-- **Read-back, event level.** The reply document of every agent state is read by the event-level
+reader, successfully and faithfully (`readback_total` with the real reader in place of the abstract
+one). -/
+theorem readback_total_ev (o : IOracle) (enc : String → Str) (c : TCfg) (hC : o.Consistent c) (hE : EncOK enc c)
+    (h : AgentState (c.toJ enc)) :
+    ∃ inst, readInstalledDoc o (renderGetConfig c) = .ok inst ∧ keys (encNames enc inst) = keys (c.toJ enc) ∧
+      ∀ n, (alGet n (c.toJ enc) = none → alGet n (encNames enc inst) = none) ∧
+        ∀ p, alGet n (c.toJ enc) = some p → ∃ i, alGet n (encNames enc inst) = some i ∧ i.v4.Nodup ∧ i.v6.Nodup ∧
+          (∀ x, x ∈ i.v4 ↔ x ∈ filtersOf .v4 p) ∧ (∀ x, x ∈ i.v6 ↔ x ∈ filtersOf .v6 p) := by
+  obtain ⟨inst', h1, h2, h3⟩ := readback_total h
+  have hr := readInstalledEv_render o enc c hC hE
+  rw [h1] at hr
+  cases hd : readInstalledDoc o (renderGetConfig c) with
+  | error e => rw [hd] at hr; cases hr
+  | ok inst =>
+    rw [hd] at hr
+    simp only [Except.toOption, Option.map_some, Option.some.injEq] at hr
+    subst hr
+    exact ⟨inst, rfl, h2, h3⟩
+
+/-- **Convergence, event level.** `run_converges` with the installed policies obtained by the
+event-level reader from the reply document of the state. -/
+theorem run_converges_ev (o : IOracle) (enc : String → Str) (c : TCfg) (hC : o.Consistent c) (hE : EncOK enc c)
+    (hs : AgentState (c.toJ enc)) (ev : List (Str × Evaluated)) (hv : EvValid ev)
+    {inst : List (String × Installed)} (hi : readInstalledDoc o (renderGetConfig c) = .ok inst)
+    (us : List Update) (hp : us.Perm (compare ev (encNames enc inst))) :
+    ∃ cfg', applyAll (c.toJ enc) (us.map (render .fixed)) = .ok cfg' ∧ Converged ev (c.toJ enc) cfg' := by
+  have hr := readInstalledEv_render o enc c hC hE
+  rw [hi] at hr
+  have hi' : readInstalled .fixed (c.toJ enc) = .ok (encNames enc inst) := by
+    cases ha : readInstalled .fixed (c.toJ enc) with
+    | error e => rw [ha] at hr; cases hr
+    | ok l =>
+      rw [ha] at hr
+      simp only [Except.toOption, Option.map_some, Option.some.injEq] at hr
+      rw [hr]
+  exact run_converges hs ev hv hi' us hp
+
+/-! ### Non-vacuity (event level) -/
+
+instance exceptDecEq {ε α} [DecidableEq ε] [DecidableEq α] : DecidableEq (Except ε α)
+  | .ok a, .ok b => if h : a = b then isTrue (by rw [h]) else isFalse (fun h' => h (by cases h'; rfl))
+  | .error a, .error b => if h : a = b then isTrue (by rw [h]) else isFalse (fun h' => h (by cases h'; rfl))
+  | .ok _, .error _ => isFalse (fun h => by cases h)
+  | .error _, .ok _ => isFalse (fun h => by cases h)
+
+set_option maxRecDepth 100000
+
+/-- library oracles of the examples: a finite table of what quick-xml / generic-ip answer -/
+def exOracle : IOracle where
+  unescape s := if s == "a&amp;b" then some "a&b" else some s
+  parsePrefix f s :=
+    match f with
+    | .v4 => if s == "192.0.2.0/24" then some (3221225984, 24) else if s == "10.0.0.0/8" then some (167772160, 8) else none
+    | .v6 => if s == "2001:db8::/32" then some (42540766411282592856903984951653826560, 32) else none
+  parseLen f s :=
+    let n := if s == "/8" then some 8 else if s == "/16" then some 16 else if s == "/24" then some 24
+      else if s == "/32" then some 32 else if s == "/48" then some 48 else if s == "/64" then some 64 else none
+    match n with
+    | some k => if k ≤ f.bits then some k else none
+    | none => none
+
+/-- text as code points (equal to UTF-8 on the ASCII texts of the examples) -/
+def exEnc (s : String) : Str := s.toList.map Char.toNat
+
+def exTerm4 : TTerm := { name := "inet", family := some "inet", filters := [exA, exB], accept := true }
+def exTerm6 : TTerm := { name := "inet6", family := some "inet6", filters := [exC], accept := true }
+
+/-- a dual-stack policy with an XML metacharacter in its name, and a policy without default reject -/
+def exT : TCfg :=
+  [{ name := "a&b", terms := [exTerm4, exTerm6], reject := true },
+   { name := "unmanaged", terms := [exTerm4], reject := false }]
+
+/-- the hypotheses of the theorems hold of the example (checked by evaluation; the `unescape` clause
+for all texts is `unescape_satisfiable`) -/
+example : (∀ r ∈ exT.ranges, Xml.RangeOK exOracle r) ∧ EncOK exEnc exT := by decide
+
+/-- the event-level reader on the rendered document: the managed policy with its ranges
+(`10.0.0.0/8` with `prefix-length-range` /16 to /24 read as `^16-24`), the other one skipped -/
+example : readInstalledDoc exOracle (renderGetConfig exT) = .ok [("a&b", ⟨[exA, exB], [exC]⟩)] := by decide
+
+/-- … which is what the abstract reader says of the denoted reference configuration -/
+example : readInstalled .fixed (exT.toJ exEnc) = .ok [(exEnc "a&b", ⟨[exA, exB], [exC]⟩)] := by decide
+
+def exOne (t : TTerm) : TCfg := [{ name := "p1", terms := [t], reject := true }]
+
+/-- the error cases, event level and abstract side by side -/
+example :
+    -- term without `<then><accept/></then>`
+    readInstalledDoc exOracle (renderGetConfig (exOne { exTerm4 with accept := false })) = .error .missing
+    ∧ readInstalled .fixed ((exOne { exTerm4 with accept := false }).toJ exEnc) = .error .noThen
+    -- term without `<from>`
+    ∧ readInstalledDoc exOracle (renderGetConfig (exOne { exTerm4 with family := none, filters := [] })) = .error .missing
+    ∧ readInstalled .fixed ((exOne { exTerm4 with family := none, filters := [] }).toJ exEnc) = .error .noFrom
+    -- term name ≠ family
+    ∧ readInstalledDoc exOracle (renderGetConfig (exOne { exTerm4 with name := "v4" })) = .error .other
+    ∧ readInstalled .fixed ((exOne { exTerm4 with name := "v4" }).toJ exEnc) = .error .nameMismatch
+    -- unknown family
+    ∧ readInstalledDoc exOracle (renderGetConfig (exOne { exTerm4 with name := "iso", family := some "iso" })) = .error .other
+    ∧ readInstalled .fixed ((exOne { exTerm4 with name := "iso", family := some "iso" }).toJ exEnc) = .error .unknownFamily
+    -- duplicate family term
+    ∧ readInstalledDoc exOracle (renderGetConfig [{ name := "p1", terms := [exTerm4, exTerm4], reject := true }]) = .error .other
+    ∧ readInstalled .fixed (TCfg.toJ exEnc [{ name := "p1", terms := [exTerm4, exTerm4], reject := true }]) = .error .dupFamily
+    -- IPv6 prefix in an `inet` term
+    ∧ readInstalledDoc exOracle (renderGetConfig (exOne { exTerm4 with filters := [exC] })) = .error .other
+    ∧ readInstalled .fixed ((exOne { exTerm4 with filters := [exC] }).toJ exEnc) = .error .badRange
+    -- duplicate policy
+    ∧ readInstalledDoc exOracle (renderGetConfig (exOne exTerm4 ++ exOne exTerm4)) = .error .other
+    ∧ readInstalled .fixed ((exOne exTerm4 ++ exOne exTerm4).toJ exEnc) = .error .dupPolicy
+    -- padded family text is trimmed by both; the term name is not
+    ∧ readInstalledDoc exOracle (renderGetConfig (exOne { exTerm4 with family := some " inet\n" })) = .ok [("p1", ⟨[exA, exB], []⟩)]
+    ∧ readInstalled .fixed ((exOne { exTerm4 with family := some " inet\n" }).toJ exEnc) = .ok [(exEnc "p1", ⟨[exA, exB], []⟩)]
+    ∧ readInstalledDoc exOracle (renderGetConfig (exOne { exTerm4 with name := " inet" })) = .error .other
+    ∧ readInstalled .fixed ((exOne { exTerm4 with name := " inet" }).toJ exEnc) = .error .nameMismatch
+    -- no configuration at all
+    ∧ readInstalledDoc exOracle (renderGetConfig []) = .ok [] := by
+  refine ⟨?_, ?_, ?_, ?_, ?_, ?_, ?_, ?_, ?_, ?_, ?_, ?_, ?_, ?_, ?_, ?_, ?_, ?_, ?_⟩ <;> decide
+
+/-- the state installed by the example run of C01 is an agent state whose reply document is read
+back by the event-level reader as installed -/
+example :
+    let c : TCfg := [{ name := "p1", comment := some (commentPrefix ++ [65]), terms := [exTerm4], reject := true },
+                     { name := "p2", comment := some (commentPrefix ++ [66]),
+                       terms := [{ exTerm4 with filters := [exB] }, exTerm6], reject := true }]
+    run .fixed [] exEv = .ok (c.toJ exEnc) ∧ agentState (c.toJ exEnc) = true ∧ EncOK exEnc c ∧
+      (∀ r ∈ c.ranges, Xml.RangeOK exOracle r) ∧
+      readInstalledDoc exOracle (renderGetConfig c) = .ok [("p1", ⟨[exA, exB], []⟩), ("p2", ⟨[exB], [exC]⟩)] := by
+  decide
 
 end Policy
